@@ -57,6 +57,29 @@ class _Rewrite(ast.NodeTransformer):
             return ast.copy_location(call, node)
         return node
 
+    _SHIMMED_MODULES = {"struct": "sx_struct_", "array": "sx_array_"}
+
+    def visit_Import(self, node):
+        # `import struct` / `import array`: the name is rebound to the proxy-aware module right away, so that objects created at
+        # import time (struct.Struct("!H") constants) are proxy-aware too
+        out = [node]
+        for a in node.names:
+            if a.name in self._SHIMMED_MODULES:
+                out.append(ast.copy_location(ast.Assign(targets=[ast.Name(id=a.asname or a.name, ctx=ast.Store())],
+                                                        value=ast.Name(id=self._SHIMMED_MODULES[a.name], ctx=ast.Load())), node))
+        return out if len(out) > 1 else node
+
+    def visit_ImportFrom(self, node):
+        out = [node]
+        if node.level == 0 and node.module in self._SHIMMED_MODULES:
+            shim = shims.StructShim if node.module == "struct" else shims.ArrayModShim
+            for a in node.names:
+                if a.name != "*" and hasattr(shim, a.name):
+                    out.append(ast.copy_location(ast.Assign(
+                        targets=[ast.Name(id=a.asname or a.name, ctx=ast.Store())],
+                        value=ast.Attribute(value=ast.Name(id=self._SHIMMED_MODULES[node.module], ctx=ast.Load()), attr=a.name, ctx=ast.Load())), node))
+        return out if len(out) > 1 else node
+
     def visit_JoinedStr(self, node):
         self.generic_visit(node)
         args = []
@@ -115,6 +138,8 @@ class Loader(importlib.machinery.SourceFileLoader):
         g["sx_in_"] = strs.in_shim
         g["sx_m_"] = strs.method_shim
         g["sx_sub_"] = shims.sub_shim
+        g["sx_struct_"] = shims.StructShim
+        g["sx_array_"] = shims.ArrayModShim
         super().exec_module(module)
         install(module)
 
@@ -140,9 +165,11 @@ class Finder(importlib.abc.MetaPathFinder):
 
 def install(mod):
     g = mod.__dict__
-    if "struct" in g:
+    import array as _a
+    import struct as _s
+    if g.get("struct") is _s:
         g["struct"] = shims.StructShim
-    if "array" in g:
+    if g.get("array") is _a:
         g["array"] = shims.ArrayModShim
     g["chr"] = shims.chr_shim
     g["ord"] = shims.ord_shim
